@@ -116,7 +116,7 @@ fn gen_keyfile(rng: &mut Rng) -> (Vec<u8>, &'static str) {
     match rng.below(14) {
         0 => (rng.bytes(32), "raw32"),
         1 => {
-            let n = *rng.pick(&[0usize, 1, 31, 33, 64, 200]);
+            let n = *rng.pick(&[0usize, 1, 31, 33, 64, 200, 65_537, 70_000, 200_000]);
             (rng.bytes(n), "arbitrary")
         }
         2 => (hexkey(rng, 32, false).into_bytes(), "hex64-text"),
